@@ -81,9 +81,14 @@ type propInfo struct {
 	ThoroughSeconds int      `json:"thoroughSeconds"`
 }
 
+var raceLogBase string
+
 func env() []string {
 	e := os.Environ()
 	e = append(e, "GOFLAGS=-mod=mod", "GOPROXY=off", "GOSUMDB=off", "GOTOOLCHAIN=local", "CGO_ENABLED=1")
+	if raceLogBase != "" {
+		e = append(e, "GORACE=halt_on_error=0 log_path="+raceLogBase)
+	}
 	return e
 }
 
@@ -220,6 +225,10 @@ func main() {
 	if replay != "" {
 		// the replay file names its property; a race replay needs the race build
 		bin := build(strings.HasPrefix(prop, "C16"))
+		if d, err := os.MkdirTemp("", "vreplay-"); err == nil {
+			defer os.RemoveAll(d)
+			raceLogBase = filepath.Join(d, "race")
+		}
 		ex := map[string]string{"VS_MODE": "replay", "VS_REPLAY": replay}
 		if verbose {
 			ex["VS_VERBOSE"] = "1"
@@ -272,6 +281,7 @@ func main() {
 		fatal2("%v", err)
 	}
 	defer os.RemoveAll(scratch)
+	raceLogBase = filepath.Join(scratch, "race")
 	known := loadKnown(prop)
 
 	// ---- fan out
@@ -319,7 +329,6 @@ func main() {
 					so, err := runWorker(bin, map[string]string{
 						"VS_MODE": "run", "VS_PROP": prop, "VS_FROM": strconv.FormatUint(j.from, 10), "VS_N": strconv.Itoa(int(end - j.from)),
 						"VS_TIER": tier, "VS_OUT": outFile, "VS_REPLAY_DIR": scratch, "VS_SECONDS": strconv.Itoa(int(left.Seconds()) + 1),
-						"GORACE": "halt_on_error=0 log_path=" + filepath.Join(scratch, fmt.Sprintf("race-%d", j.idx)),
 					}, left+5*time.Minute)
 					rs, lastBegin, finished, resume := readRecords(outFile)
 					mu.Lock()
